@@ -252,7 +252,7 @@ func (co *ClipperOffset) executeInternal(delta float64) {
 	if math.Abs(delta) < 0.5 {
 		for _, group := range co.groupList {
 			for _, path := range group.inPaths {
-				*co.solution = append(*co.solution, path)
+				*co.solution = append(*co.solution, append(Path64{}, path...))
 			}
 		}
 		return
